@@ -162,7 +162,7 @@ Proof.
   - apply invw_push; auto.
   - apply invw_push.
     assert (Hb : td_buf d <> []).
-    { unfold td_needs_compress_on_update in H0. apply Z.eqb_eq in H0.
+    { unfold td_needs_compress_on_update in H0. apply Z.leb_le in H0.
       intros E. rewrite E in H0. cbn [length] in H0. pose proof (buf_limit_pos _ (iw_k _ _ IHreach)). lia. }
     pose proof (invw_compress d h out IHreach Hb H1) as I. destruct I as [A B C D E F G]. constructor; cbn [values image_weight]; auto.
   - destruct IHreach as [A B C D E F G]. constructor; cbn [values image_weight]; auto.
@@ -203,7 +203,7 @@ Proof.
   - exists d0. apply R_image. exact Hok.
   - destruct (IH Hok) as (d & R). destruct (td_needs_compress_on_update d) eqn:E.
     + assert (Hne : compress_input d <> []).
-      { unfold compress_input. unfold td_needs_compress_on_update in E. apply Z.eqb_eq in E.
+      { unfold compress_input. unfold td_needs_compress_on_update in E. apply Z.leb_le in E.
         pose proof (buf_limit_pos _ (iw_k _ _ (reach_invw _ _ R))). destruct (td_buf d); [cbn in E; lia|discriminate]. }
       destruct (merge_rel_exists (td_rev d) _ Hne) as (out & Hrel). eexists. eapply R_upd_full; eauto.
     + eexists. eapply R_upd_room; eauto.
@@ -219,4 +219,18 @@ Proof.
         - destruct (td_buf o) as [|b bs]; [discriminate|]. destruct (td_buf d); discriminate.
         - intros H. apply app_eq_nil in H as [_ H]. apply app_eq_nil in H as [_ H]. discriminate. }
       destruct (merge_rel_exists (td_rev d) _ Hne) as (out & Hrel). eexists. eapply R_merge; eauto.
+Qed.
+
+(* after ANY update -- also of a digest decoded from an image announcing more buffered values than the
+   capacity -- the buffer is within BUFFER_MULTIPLIER * capacity (repair 5ca8d9c: `>=`) *)
+Theorem buffer_bound_after_update h x d : reach (HUpd h x) d -> (Z.of_nat (length (td_buf d)) <= buf_limit (td_k d))%Z.
+Proof.
+  intros R. inversion R as [| |h0 d0 x0 R0 Hroom|h0 d0 x0 out R0 Hfull Hrel| | | |]; subst.
+  - unfold td_needs_compress_on_update in Hroom. apply Z.leb_gt in Hroom.
+    unfold td_push. cbn [td_buf td_k]. rewrite app_length. cbn [length]. lia.
+  - pose proof (buf_limit_pos _ (iw_k _ _ (reach_invw _ _ R0))) as Hp.
+    unfold td_push, td_compress_with. cbn [td_buf td_k].
+    destruct (td_buf d0) eqn:Eb.
+    + unfold td_needs_compress_on_update in Hfull. rewrite Eb in Hfull. apply Z.leb_le in Hfull. cbn [length] in Hfull. lia.
+    + unfold adopt. cbn [td_buf td_k app length]. lia.
 Qed.
